@@ -22,7 +22,9 @@ EXPLANATION = ("P1 the PEG extracted from the nom combinator calls of src/filter
                "P8 what the leaf parsers RETURN (value reading of the nom combinators next to the grammar reading: recognize = the consumed bytes, terminated / preceded / "
                "delimited = one part's output, pair / tuple, opt, many0, map, verify, peek ...): the attribute description slot of every item holds exactly the bytes the "
                "attribute-description step consumed (type and all options), the operator dispatched on is the literal consumed, the matchingRule slot holds what the step "
-               "consumed after the colon, every `*` component is the output of unescaped() on its part, and the unescaper is folded over the consumed bytes themselves. Not decided: "
+               "consumed after the colon, every `*` component is the output of unescaped() on its part, the unescaper is folded over the consumed bytes themselves and unescaped() returns that fold's "
+               "result as it is; the actions of and / or / not / mv_filterlist receive the outputs of their sub-rule (every repetition, in input order) and the rules in "
+               "between hand one part's tree upwards unchanged. Not decided: "
                "'printing the BER reproduces the input' taken whole.")
 TRUSTED = ['nom combinator semantics', 'RFC 4515 grammar transcribed below', 'rules/triage/C08.tsv']
 UNDECIDED = ['round trip through a canonical printer taken whole']
